@@ -52,7 +52,7 @@ fn nontrivial(o: &Outcome) -> bool {
 
 const CLASSES: &[&str] = &["roundtrip", "rekeyed", "disable-effective", "pruned-revisions", "update-dropped-rights", "key-with-uneven-chains", "hybridized-enc"];
 
-fn hc(thorough: bool) -> HistCheck<'static> {
+pub fn hc(thorough: bool) -> HistCheck<'static> {
     HistCheck { focus: "C13", profile: profile(thorough), nontrivial, classes: CLASSES, required: &["roundtrip", "rekeyed", "disable-effective"], reps: 1, stream: 13 }
 }
 
